@@ -79,7 +79,8 @@ PROPS = {
             "runs": [ctl("election", 480, 30, 9000, 40, 15)], "modelled": CTL + [
                 "partial: the replica-side registration loop (sync.AddReplica, 5 s ticker) is modelled as 'registration may repeat'"]},
     "C13": {"lean": CTLMOD, "prefixes": ["c13_", "ctl_reachable_inv"],
-            "runs": [ctl("snapshots", 480, 30, 9000, 40, 16)], "modelled": CTL},
+            "runs": [ctl("snapshots", 480, 30, 9000, 40, 16), rep("rebuild", 160, 30, 3000, 40, 38)],
+            "modelled": CTL + ["data half: in the rebuild profile, once all three real replicas are RW, volume snapshots are taken through the real controller between foreground writes and the chains and volume images of the three replicas are compared with each other (request cmp) and with the model"]},
     "C18": {"lean": CTLMOD, "prefixes": ["c18_", "c07_single_wo", "ctl_reachable_inv", "run_rf", "step_rf"],
             "runs": [ctl("membership", 480, 30, 9000, 40, 17)], "modelled": CTL},
     "C01": {"lean": ["JivaVerif.Properties.C01"],
